@@ -58,6 +58,111 @@ def stmt_key(n):
     return unparse(n, 160)
 
 
+def _terminates(body):
+    if not body:
+        return False
+    last = body[-1]
+    if isinstance(last, (ast.Return, ast.Raise, ast.Continue, ast.Break)):
+        return True
+    if isinstance(last, ast.If) and last.orelse:
+        return _terminates(last.body) and _terminates(last.orelse)
+    return False
+
+
+def guards_of(node, fn):
+    """[(test, holds)]: the tests known to hold (True) or to fail (False) whenever `node` is reached inside `fn` - the arms of the
+    enclosing if / conditional expressions / short-circuit operators, asserts, and the earlier `if` statements of every enclosing
+    block whose body always leaves the block (guard clauses).  A guard is dropped when a name it reads is assigned between it
+    and the node.  Needs set_parents()."""
+    out = []
+    c, p = node, getattr(node, '_parent', None)
+    while p is not None and c is not fn:
+        if isinstance(p, ast.If):
+            if c in p.body:
+                out.append((p.test, True))
+            elif c in p.orelse:
+                out.append((p.test, False))
+        elif isinstance(p, ast.IfExp):
+            if c is p.body:
+                out.append((p.test, True))
+            elif c is p.orelse:
+                out.append((p.test, False))
+        elif isinstance(p, ast.BoolOp) and c in p.values:
+            for v in p.values[:p.values.index(c)]:
+                out.append((v, isinstance(p.op, ast.And)))
+        if isinstance(c, ast.stmt):
+            for name in ('body', 'orelse', 'finalbody'):
+                blk = getattr(p, name, None)
+                if isinstance(blk, list) and c in blk:
+                    i = blk.index(c)
+                    for k, sib in enumerate(blk[:i]):
+                        between = blk[k + 1:i]
+                        assigned = {n.id for st in between for n in ast.walk(st) if isinstance(n, ast.Name) and isinstance(n.ctx, ast.Store)}
+                        g = None
+                        if isinstance(sib, ast.If):
+                            if _terminates(sib.body) and not _terminates(sib.orelse):
+                                g = (sib.test, False)
+                            elif sib.orelse and _terminates(sib.orelse) and not _terminates(sib.body):
+                                g = (sib.test, True)
+                        elif isinstance(sib, ast.Assert):
+                            g = (sib.test, True)
+                        if g is not None and not ({n.id for n in ast.walk(g[0]) if isinstance(n, ast.Name)} & assigned):
+                            out.append(g)
+        c, p = p, getattr(p, '_parent', None)
+    return out
+
+
+def decide_test(test, env):
+    """three-valued evaluation of a test under `env` (text of a name / expression -> concrete value): True, False or None (unknown)"""
+    import operator as _o
+    def val(e):
+        t = ast.unparse(e)
+        if t in env:
+            return env[t]
+        if isinstance(e, ast.Constant):
+            return e.value
+        if isinstance(e, ast.UnaryOp) and isinstance(e.op, ast.USub):
+            v = val(e.operand)
+            return -v if isinstance(v, (int, float)) else KeyError
+        if isinstance(e, ast.BinOp) and isinstance(e.op, (ast.Add, ast.Sub)):
+            x, y = val(e.left), val(e.right)
+            if isinstance(x, (int, float)) and isinstance(y, (int, float)):
+                return x + y if isinstance(e.op, ast.Add) else x - y
+        return KeyError
+    if isinstance(test, ast.UnaryOp) and isinstance(test.op, ast.Not):
+        r = decide_test(test.operand, env)
+        return None if r is None else not r
+    if isinstance(test, ast.BoolOp):
+        rs = [decide_test(v, env) for v in test.values]
+        if isinstance(test.op, ast.And):
+            return False if False in rs else (None if None in rs else True)
+        return True if True in rs else (None if None in rs else False)
+    if isinstance(test, ast.Compare) and len(test.ops) == 1:
+        x, y = val(test.left), val(test.comparators[0])
+        if x is KeyError or y is KeyError:
+            return None
+        op = type(test.ops[0])
+        try:
+            if op in (ast.In, ast.NotIn):
+                return (x in y) if op is ast.In else (x not in y)
+            if op in (ast.Is, ast.IsNot):
+                return (x is y) if op is ast.Is else (x is not y)
+            return {ast.Eq: _o.eq, ast.NotEq: _o.ne, ast.Lt: _o.lt, ast.LtE: _o.le, ast.Gt: _o.gt, ast.GtE: _o.ge}[op](x, y)
+        except TypeError:
+            return None
+    v = val(test)
+    return None if v is KeyError else bool(v)
+
+
+def excluded_by_guards(node, fn, env):
+    """True when, under `env`, some guard on the way to `node` is definitely violated: the node is not reached with these values"""
+    for t, holds in guards_of(node, fn):
+        r = decide_test(t, env)
+        if r is not None and r != holds:
+            return True
+    return False
+
+
 class Module:
     def __init__(self, repo, rel):
         self.repo = repo
